@@ -75,7 +75,11 @@ class ModbusAsciiFramer(ModbusFramer):
             self._header['uid'] = int(self._buffer[1:3], 16)
             self._header['lrc'] = struct.unpack('>B', a2b_hex(self._buffer[end - 2:end]))[0]
             data = a2b_hex(self._buffer[start + 1:end - 2])
-            return checkLRC(data, self._header['lrc'])
+            if checkLRC(data, self._header['lrc']):
+                return True
+            # a complete frame that fails its LRC can never become valid:
+            # drop it, otherwise every later frame queues up behind it
+            self._buffer = self._buffer[end + 2:]
         return False
 
     def advanceFrame(self):
